@@ -468,3 +468,49 @@ func check9212(run aRun) (string, string) {
 	}
 	return "", ""
 }
+
+func init() {
+	// I->S for C16: large random chunk sets through the real range computation
+	cmds["c16-gen"] = func(a []string) {
+		n := atoi(a[0])
+		out := newND(a[1])
+		defer out.close()
+		r := newRand(1616)
+		for i := 0; i < n; i++ {
+			gaps := []int{1, 5, 126, 127, 128, 129, 200, 254, 255, 256, 300}[r.Intn(11)]
+			// alternate gap / chunk; random small widths; optional chunk at 0 and at the end
+			var chunks []seg
+			pos := 0
+			if r.Intn(2) == 0 {
+				w := 1 + r.Intn(3)
+				chunks = append(chunks, seg{0, w})
+				pos = w
+			}
+			for g := 0; g < gaps; g++ {
+				pos += 1 + r.Intn(3) // the gap
+				w := 1 + r.Intn(3)
+				if g == gaps-1 && r.Intn(2) == 0 {
+					break // last gap is the tail
+				}
+				chunks = append(chunks, seg{pos, w})
+				pos += w
+				if r.Intn(4) == 0 { // adjacent chunk, no gap
+					w2 := 1 + r.Intn(2)
+					chunks = append(chunks, seg{pos, w2})
+					pos += w2
+				}
+			}
+			size := pos
+			p := &attachment.Package{FileSize: uint32(size), OffsetRecord: map[int]int{}, OffsetDataRecord: map[int][]byte{}}
+			for _, ch := range chunks {
+				p.OffsetRecord[ch.Off] = ch.Len
+				p.CurrentSize += uint32(ch.Len)
+			}
+			got := []seg{}
+			for _, s := range p.StatisticalMissSegments() {
+				got = append(got, seg{int(s.DataOffset), int(s.DataLength)})
+			}
+			out.put(missCase{Size: size, Chunks: chunks, Segs: got})
+		}
+	}
+}
